@@ -25,12 +25,15 @@ open OttoVerif OttoVerif.C10
 structure Eng where
   findAt : List Nat → Nat → Option Caps
 
+def maxInt64 : Int := 9223372036854775807
+def minInt64 : Int := -9223372036854775808
+
 /-- value_number.go:149 `number().int64` of a Number -/
 def toInt64 : LI → Int
   | .int z => z                                  -- |z| < 2^63 assumed (the harness stays below 2^53)
   | .nan => 0
-  | .pinf => 9223372036854775807
-  | .ninf => -9223372036854775808
+  | .pinf => maxInt64
+  | .ninf => minInt64
   | .frac fl => if fl ≥ 0 then fl else fl + 1    -- int64(float) truncates
 
 /-- builtin_string.go:89 utf16Length -/
@@ -39,9 +42,8 @@ def utf16Length (bs : List Nat) : Nat := (Str.unitsOfBytes bs).length
 /-- the JS string value of a Go string, as the code units a script sees -/
 def jsStr (bs : List Nat) : List Nat := Str.unitsOfBytes bs
 
-/-- type_regexp.go:86 execRegExp: new object state and the (absolute, byte) offsets -/
-def execRegExp (E : Eng) (rx : RX) (target : List Nat) : RX × Option Caps :=
-  let lastIndex := toInt64 rx.lastIndex
+/-- type_regexp.go:92-122: the body of execRegExp once `lastIndex` has been read as an int64 -/
+def execAt (E : Eng) (rx : RX) (target : List Nat) (lastIndex : Int) : RX × Option Caps :=
   let index := if rx.global then lastIndex else 0
   let result : Option Caps :=
     if 0 > index ∨ index > (target.length : Int) then none
@@ -52,6 +54,10 @@ def execRegExp (E : Eng) (rx : RX) (target : List Nat) : RX × Option Caps :=
     let endIndex := lastIndex + (capEnd r : Int)
     let r' := shiftCaps index.toNat r
     (if rx.global then { rx with lastIndex := .int endIndex } else rx, some r')
+
+/-- type_regexp.go:86 execRegExp: new object state and the (absolute, byte) offsets -/
+def execRegExp (E : Eng) (rx : RX) (target : List Nat) : RX × Option Caps :=
+  execAt E rx target (toInt64 rx.lastIndex)
 
 /-- type_regexp.go:125 execResultToArray -/
 def execResultToArray (target : List Nat) (result : Caps) : Res :=
